@@ -281,6 +281,125 @@ func c12Success(p *ePair, o c12Opts, ca, cb net.Conn) {
 	vrt.Outcome(fmt.Sprintf("established v%d", want))
 }
 
+// c12ScriptedBody: the real server against a scripted raw client of "another implementation": protocol 3 version
+// exchange followed by metadata BY FILE PATH (a pairing the Go client never produces: it uses the protocol 2
+// initializer for file mappings). The script is cut after k bytes — k is an environment choice: every message
+// boundary in quick, every byte in thorough — and the peer then falls silent or closes. Uncut, the handshake must
+// succeed with version 3.
+func c12ScriptedBody(everyByte, closing bool) func() {
+	return func() {
+		p := pairBegin()
+		ca, cb := socketPairConns()
+		noteConnOwner(ca, 3)
+		noteConnOwner(cb, 2)
+		// the scripted client's shared memory: real files made with the library's own functions in its own process table
+		qpath, bpath := "/dev/shm/"+p.name+"_queue", "/dev/shm/"+p.name+bufferPathSuffix
+		var script []byte
+		var bounds []int
+		setup := vrt.GoProc("scripted-setup", 3, func() {
+			cfg := pairConfig(pairOpts{File: true}, p.name)
+			if _, err := createQueueManager(qpath, cfg.QueueCap); err != nil {
+				vrt.Failf("harness", "createQueueManager: %v", err)
+			}
+			if _, err := getGlobalBufferManager(bpath, cfg.ShareMemoryBufferCap, true, cfg.BufferSliceSizes); err != nil {
+				vrt.Failf("harness", "getGlobalBufferManager: %v", err)
+			}
+			h := header(make([]byte, headerSize))
+			h.encode(headerSize, 3, typeExchangeProtoVersion)
+			script = append(script, h...)
+			bounds = append(bounds, len(script))
+			meta := make([]byte, headerSize+2+len(qpath)+2+len(bpath))
+			off := headerSize
+			meta[off], meta[off+1] = byte(len(qpath)>>8), byte(len(qpath))
+			copy(meta[off+2:], qpath)
+			off += 2 + len(qpath)
+			meta[off], meta[off+1] = byte(len(bpath)>>8), byte(len(bpath))
+			copy(meta[off+2:], bpath)
+			header(meta).encode(uint32(len(meta)), 3, typeShareMemoryByFilePath)
+			script = append(script, meta...)
+			bounds = append(bounds, len(script)-len(meta)+headerSize, len(script))
+		})
+		vrt.WaitThreads(setup)
+		cfgS := pairConfig(pairOpts{InitTimeout: c12InitTimeout}, p.name+"_srv")
+		start := vrt.VNow()
+		var sEnd int64
+		ts := vrt.GoProc("server-init", 2, func() {
+			p.s, p.serr = newSession(cfgS, cb, false)
+			sEnd = vrt.VNow()
+		})
+		cut := -1
+		tp := vrt.GoProc("scripted-client", 3, func() {
+			f, _ := ca.(interface{ File() (*os.File, error) }).File()
+			defer f.Close()
+			fd := int(f.Fd())
+			// where does the peer stop? default: nowhere (plays the whole script)
+			var cuts []int
+			if everyByte {
+				for k := 0; k < len(script); k++ {
+					cuts = append(cuts, k)
+				}
+			} else {
+				cuts = append([]int{0}, bounds[:len(bounds)-1]...)
+			}
+			if c := vrt.Choose(len(cuts)+1, 1); c > 0 {
+				cut = cuts[c-1]
+			}
+			n := len(script)
+			if cut >= 0 {
+				n = cut
+			}
+			sysWriteAll(fd, script[:n])
+			if cut >= 0 && closing {
+				ca.Close()
+			}
+		})
+		vrt.WaitThreads(ts, tp)
+		vrt.WaitIdle(vrt.Second)
+		if sEnd-start > int64(c12InitTimeout)+int64(50*ms) {
+			vrt.Failf("late", "the server's newSession returned after %d ms (timeout %d ms)", (sEnd-start)/1e6, int64(c12InitTimeout)/1e6)
+		}
+		if cut < 0 {
+			if p.serr != nil {
+				vrt.Failf("handshake-failed", "complete protocol-3 / file-path script: server returned %v", p.serr)
+			}
+			if p.s.communicationVersion != 3 {
+				vrt.Failf("version", "server speaks version %d with a protocol-3 client", p.s.communicationVersion)
+			}
+			// same memory: what the scripted client's process wrote into its queue mapping's file is what the server maps
+			tcl := vrt.GoProc("close-s", 2, func() { p.s.Close() })
+			vrt.WaitThreads(tcl)
+			vrt.WaitIdle(2 * vrt.Second)
+		} else if p.serr == nil {
+			vrt.Failf("established-on-truncated-script", "the client stopped after %d of %d bytes and the server's newSession succeeded", cut, len(script))
+		}
+		dup := 0
+		if p.serr != nil {
+			for _, f := range vrt.TrackedFiles(2) {
+				if f.Close() == nil {
+					dup++
+				}
+			}
+		}
+		if left := c12Leftovers(p, 3); left != "" {
+			vrt.Failf("leftover", "scripted client stopped at byte %d (closing=%v), server returned %v; left behind: %s", cut, closing, p.serr, left)
+		}
+		if dup > 0 {
+			vrt.Failf("known:handshake-failure-leaks-conn-dup", "scripted client stopped at byte %d, the server's newSession returned %v and left the descriptor it duplicated from the connection open", cut, p.serr)
+		}
+		vrt.Outcome(fmt.Sprintf("cut=%d err=%v", cut, p.serr != nil))
+	}
+}
+
+func sysWriteAll(fd int, b []byte) {
+	for len(b) > 0 {
+		n, err := sysWrite(fd, b)
+		if err != nil {
+			return
+		}
+		b = b[n:]
+	}
+}
+
 func TestVerif_C12(t *testing.T) {
 	mk := func(o c12Opts, b, bt int) bScenario {
 		return bScenario{Name: o.name, Bound: b, BoundT: bt, Body: c12Body(o), Live: true}
@@ -299,5 +418,9 @@ func TestVerif_C12(t *testing.T) {
 			}
 		}
 	}
+	thorough := os.Getenv("VERIF_TIER") == "thorough"
+	scs = append(scs,
+		bScenario{Name: "scripted-v3-filepath-client-silent", Bound: 1, BoundT: 1, Body: c12ScriptedBody(thorough, false), Live: true},
+		bScenario{Name: "scripted-v3-filepath-client-closing", Bound: 1, BoundT: 1, Body: c12ScriptedBody(thorough, true), Live: true})
 	runBScenarios(t, "C12", scs)
 }
